@@ -22,6 +22,7 @@ func init() {
 			runC11Global(c, "C11")
 			runC11Pool(c, "C11")
 			runPoolReleaseLast(c, "C11-POOL")
+			runPoolReleaseOnce(c, "C11-POOL")
 			runLock(c, "C11-LRU")
 			runGlobalMapAlias(c, "C11-GLOBAL")
 			base(c, "ALIAS", "LRU")
@@ -38,6 +39,7 @@ func init() {
 		Run: func(c *Ctx) {
 			runC11Pool(c, "C12")
 			runPoolReleaseLast(c, "C12-POOL")
+			runPoolReleaseOnce(c, "C12-POOL")
 			runC11Global(c, "C12")
 			runC12Cache(c)
 			runC12Unsafe(c)
@@ -46,6 +48,7 @@ func init() {
 			runGlobalMapAlias(c, "C12-GLOBAL")
 			runC12Memo(c)
 			runC12ParamWrite(c)
+			base(c, "FACADE")
 		},
 	})
 }
@@ -493,6 +496,7 @@ func runC11Pool(c *Ctx, prop string) {
 				in.NoInline["valid.newStrBuf"] = true
 				in.NoInline["valid.NewRule"] = true
 				obj := &Cell{Label: "pooled", T: pi.Pooled.(*types.Pointer).Elem()}
+				in.Pinned = append(in.Pinned, obj)
 				in.Models["(*sync.Pool).Get"] = func(in *Interp, site ssa.Instruction, cc *ssa.CallCommon, a []AVal) (AVal, bool) {
 					return Ifc{V: Ptr{C: obj}, Dyn: pi.Pooled}, true
 				}
@@ -1327,4 +1331,101 @@ func runC12ParamWrite(c *Ctx) {
 	}
 	c.Sites += n
 	c.Check(len(bad) == 0, "C12-PARAMWRITE", "valid", "slice-params", token.NoPos, fmt.Sprintf("%d slice parameters, none written through", n), uniqJoin(bad, 3))
+}
+
+// runPoolReleaseOnce: a pooled object is handed back at most once per acquisition. Two releases of one
+// object (an explicit one followed by the deferred one, or two on one path) put the same object into
+// the pool twice: two later Gets — possibly in different goroutines — then share one builder.
+func runPoolReleaseOnce(c *Ctx, rule string) {
+	p := c.P
+	for _, pi := range findPools(p) {
+		// releasers: functions that Put their own parameter into this pool
+		releasers := map[*ssa.Function]bool{}
+		for _, put := range pi.Puts {
+			f := put.Parent()
+			args := put.Call.Args
+			if len(f.Params) == 0 || len(args) < 2 {
+				continue
+			}
+			obj := args[len(args)-1]
+			if mi, ok := obj.(*ssa.MakeInterface); ok {
+				obj = mi.X
+			}
+			if obj == ssa.Value(f.Params[0]) {
+				releasers[f] = true
+			}
+		}
+		keyOfObj := func(v ssa.Value) string {
+			if mi, ok := v.(*ssa.MakeInterface); ok {
+				v = mi.X
+			}
+			if ld, ok := v.(*ssa.UnOp); ok && ld.Op == token.MUL {
+				if fa, ok := ld.X.(*ssa.FieldAddr); ok {
+					owner := "a local object"
+					if prm, ok := fa.X.(*ssa.Parameter); ok {
+						owner = prm.Name()
+					}
+					return "field " + fieldAddrName(fa) + " of " + owner
+				}
+			}
+			return v.Name()
+		}
+		type rel struct {
+			ins      ssa.Instruction
+			deferred bool
+		}
+		for _, fn := range p.Funcs {
+			if releasers[fn] {
+				continue
+			}
+			by := map[string][]rel{}
+			ord := map[string]string{}
+			for _, b := range fn.Blocks {
+				for _, ins := range b.Instrs {
+					ci, ok := ins.(ssa.CallInstruction)
+					if !ok {
+						continue
+					}
+					cc := ci.Common()
+					var obj ssa.Value
+					if sc := staticCallee(cc); sc != nil && releasers[sc] && len(cc.Args) > 0 {
+						obj = cc.Args[0]
+					} else if calleeName(cc) == "(*sync.Pool).Put" && len(cc.Args) == 2 && cc.Args[0] == ssa.Value(pi.G) {
+						obj = cc.Args[1]
+					}
+					if obj == nil {
+						continue
+					}
+					_, isDefer := ins.(*ssa.Defer)
+					k := keyOfObj(obj)
+					if !strings.HasPrefix(k, "field ") {
+						if ord[k] == "" {
+							ord[k] = fmt.Sprintf("builder #%d", len(ord)+1)
+						}
+						k = ord[k]
+					}
+					by[k] = append(by[k], rel{ins, isDefer})
+				}
+			}
+			for k, rs := range by {
+				c.Sites++
+				var bad []string
+				for i, a := range rs {
+					for j, b := range rs {
+						if i >= j {
+							continue
+						}
+						switch {
+						case a.deferred != b.deferred:
+							bad = append(bad, fmt.Sprintf("%s is released explicitly at %s and again by the deferred release at %s", k, p.Pos(instrPos(map[bool]ssa.Instruction{true: b.ins, false: a.ins}[a.deferred])), p.Pos(instrPos(map[bool]ssa.Instruction{true: a.ins, false: b.ins}[a.deferred]))))
+						case a.ins.Block() == b.ins.Block() || blockReaches(a.ins.Block(), b.ins.Block(), nil) || blockReaches(b.ins.Block(), a.ins.Block(), nil):
+							bad = append(bad, fmt.Sprintf("%s is released at %s and again at %s on one path", k, p.Pos(instrPos(a.ins)), p.Pos(instrPos(b.ins))))
+						}
+					}
+				}
+				c.Check(len(bad) == 0, rule, fnName(fn), "release-once:"+pi.G.Name()+":"+k, instrPos(rs[0].ins), "released once",
+					strings.Join(uniqStrings(bad), "; ")+": the same object sits in the pool twice, so two later users (possibly concurrent calls) write into one buffer")
+			}
+		}
+	}
 }
